@@ -13,6 +13,7 @@ CONSTANTS
   Interleave = FALSE
   WithTraffic = TRUE
   WithUnknownStop = TRUE
+  Forms = {1}
   LocMaps <- CanonLocMaps
 INVARIANTS TypeOK NonNegativeIncrement InWindowKey InWindowLoc LocSumEqKeySum Conservation RefCountMatches StartNotInFuture SeqExact
 PROPERTIES Monotone
